@@ -68,6 +68,35 @@ func M(m any, write bool, pos string) {
 	sched.AddAccess(sched.Access{Addr: v.Pointer(), Write: write, Pos: pos}, obs)
 }
 
+// S records an access to the whole struct x points to (a read or an overwrite of *x): one
+// access per field that F would record.
+func S(x any, write bool, pos string) {
+	if !live() {
+		return
+	}
+	v := reflect.ValueOf(x)
+	if v.Kind() != reflect.Ptr || v.IsNil() || v.Elem().Kind() != reflect.Struct {
+		return
+	}
+	e := v.Elem()
+	for i := 0; i < e.NumField(); i++ {
+		fv := e.Field(i)
+		if fv.Kind() == reflect.Struct || fv.Kind() == reflect.Array {
+			continue
+		}
+		pp := fv.Type().PkgPath()
+		if strings.HasSuffix(pp, "/vsync") || strings.HasSuffix(pp, "/vatomic") || pp == "sync" || pp == "sync/atomic" {
+			continue
+		}
+		var obs func() string
+		if !write {
+			f := fv
+			obs = func() string { return describe(f) }
+		}
+		sched.AddAccess(sched.Access{Addr: fv.UnsafeAddr(), Write: write, Pos: pos}, obs)
+	}
+}
+
 // P parks the thread once for all accesses F and M accumulated for the statement that
 // follows: they are pending together (and compared with the pending accesses of every other
 // enabled thread), and what they read is folded into the thread's observation hash when the
